@@ -278,7 +278,7 @@ def shard_main(argv):
         # (an outcome like any other) instead of an out-of-memory kill of some process
         import resource
 
-        gb = float(os.environ.get("VERIF_SHARD_MEM_GB", "6"))
+        gb = float(os.environ.get("VERIF_SHARD_MEM_GB", "3"))
         if gb > 0:
             resource.setrlimit(resource.RLIMIT_AS, (int(gb * 2**30), int(gb * 2**30)))
     except Exception:  # noqa: BLE001
